@@ -1,6 +1,7 @@
 //! gv <PROPERTY> <quick|thorough> [--replay <file>]
 //! exit 0 = held (or only known findings), 1 = violation, 2 = cannot decide.
 use gvlib::ctx::*;
+use gvlib::container;
 use gvlib::hist;
 use gvlib::searchrun;
 use serde_json::Value;
@@ -22,6 +23,8 @@ fn run_property(prop: &str, ctx: &mut Ctx) {
         "C08" => searchrun::run("C08", ctx),
         "C09" => searchrun::run("C09", ctx),
         "C10" => searchrun::run("C10", ctx),
+        "C11" => container::run_c11(ctx),
+        "C12" => container::run_c12(ctx),
         _ => {
             eprintln!("unknown property {}", prop);
             std::process::exit(2)
@@ -36,6 +39,8 @@ fn replay_case(prop: &str, v: &Value, st: &mut Stats) -> Result<(), String> {
         "C02" => hist::replay(hist::Which::C02, case, st),
         "C03" => hist::replay(hist::Which::C03, case, st),
         "C04" | "C05" | "C06" | "C07" | "C08" | "C09" | "C10" => searchrun::replay(prop, case, st),
+        "C11" => container::replay_c11(case, st),
+        "C12" => container::replay_c12(case, st),
         _ => Err(format!("no replay for {}", prop)),
     }
 }
